@@ -6,17 +6,17 @@ CONSTANTS
   CompactAt = 1073741824
   Compact = TRUE
   SortKindOrder <- MCSortKindOrder
-  WithSortFull = FALSE
+  WithSortFull = TRUE
   Wrap = FALSE
-  MaxInit = 2
+  MaxInit = 3
   MaxElems = 4
-  UidBound = 12
-  NewNames = {1, 2}
-  MergeLines = {7}
+  UidBound = 8
+  NewNames = {1, 200}
+  MergeLines = {}
   UidBases = {0}
 VIEW View
 CONSTRAINT Bounded
-INVARIANTS NoPanic UidsBounded
-PROPERTIES SortStepIdeal InsertKeepsOrder
+INVARIANTS NoPanic
+PROPERTIES SortFullStepIdeal SortFullIdempotent SortStepIdeal InsertKeepsOrder
 ACTION_CONSTRAINT EmitTransition
 CHECK_DEADLOCK FALSE
